@@ -271,6 +271,12 @@ RawPing(src, uid) ==
 -----------------------------------------------------------------------------
 (* environment *)
 
+\* tun back-pressure (all_users_waiting_to_send): the server's select loop reads its tun device only while some live
+\* session can take another packet - a raw-mode session always can, a DNS-mode one while nothing waits in its queue
+\* (the packet in flight does not count).  The fourth comparison with the clock: last+60 > now (counts iff age < EXP).
+CanTake(u) == active[u] /\ age[u] < EXP /\ (conn[u] = "raw" \/ Len(out[u]) <= 1)
+TunPolled == \E u \in Slots : CanTake(u)
+
 \* a packet for tunnel address d is read from the server's tun device
 TunArrival(d) ==
     /\ msg' = [c |-> "T", arg |-> d]
